@@ -33,9 +33,7 @@ class Unit:
         self.shadow = sh = core.Shadow(scratch)
         self.witnesses = []
         # header: drop the bitset<N> / to_string member templates (declarations and definitions)
-        sh.dropped += ['DynamicBitset(const std::bitset<N>&)', 'operator=(const std::bitset<N>&)',
-                       'DynamicBitset(std::vector<bool>&&)', 'operator=(std::vector<bool>&&)',
-                       ]
+        sh.dropped += ['DynamicBitset(std::vector<bool>&&)', 'operator=(std::vector<bool>&&)']
 
         def pre_h(h):
             # keep the definition of to_string (T := char), drop the two bitset<N> member templates around it
@@ -45,9 +43,17 @@ class Unit:
             ts = m.group(0).replace('template< typename T> std::string DynamicBitset::to_string( T zero, T one) const', 'inline std::string DynamicBitset::to_string( char zero, char one) const')
             i = h.index('template< size_t N> DynamicBitset::DynamicBitset')
             j = h.index('// free functions')
-            return h[:i] + ts + h[j:]
+            # T-INST: the two std::bitset< N> member templates with N := CV_BS_N (a size chosen per proof instance)
+            mid = h[i:j].replace(m.group(0), '')
+            mid, n1 = re.subn(r'template< size_t N>\s*DynamicBitset::DynamicBitset\( const std::bitset< N>& other\)', 'inline DynamicBitset::DynamicBitset( const std::bitset< CV_BS_N>& other)', mid)
+            mid, n2 = re.subn(r'template< size_t N>\s*DynamicBitset& DynamicBitset::operator =\( const std::bitset< N>& other\)', 'inline DynamicBitset& DynamicBitset::operator =( const std::bitset< CV_BS_N>& other)', mid)
+            mid, n3 = re.subn(r'\bN\b', 'CV_BS_N', mid)
+            if (n1, n2) != (1, 1) or not 4 <= n3 <= 8:
+                raise Undecided('extraction: T-INST of the std::bitset< N> members fired %d / %d / %d times (expected 1 / 1 / about 5)' % (n1, n2, n3))
+            return h[:i] + ts + mid + h[j:]
         sh.extract('celma/container/dynamic_bitset.hpp',
-                   [Rule('drop-tmpl-bitset', r'   template< size_t N>[^;]*;\n', '', 2),
+                   [Rule('T-INST-bitset-ctor', r'   template< size_t N> explicit DynamicBitset\( const std::bitset< N>& other\);', '   explicit DynamicBitset( const std::bitset< CV_BS_N>& other);', 1),
+                    Rule('T-INST-bitset-assign', r'   template< size_t N> DynamicBitset& operator =\( const std::bitset< N>& other\);', '   DynamicBitset& operator =( const std::bitset< CV_BS_N>& other);', 1),
                     Rule('T-INST-to_string-decl', r'   template< typename T = char>\n      std::string to_string\( T zero = T\( \'0\'\), T one = T\( \'1\'\)\) const;', '   std::string to_string( char zero = \'0\', char one = \'1\') const;', 1),
                     Rule('drop-rvalue', r'^[^\n]*std::vector< bool>&& other\);\n', '', 2),
                     # const iterators: the front end loses const on class types, so both instantiations are bound to
@@ -199,18 +205,26 @@ void h_to_string() { MK(d, n, b) std::string s = d.to_string(); __CPROVER_assert
   char cvin_z, cvin_o; std::string t = d.to_string(cvin_z, cvin_o); for (size_t i = 0; i < V; ++i) if (i < n) __CPROVER_assert(t.c_str()[n - 1 - i] == (b[i] ? cvin_o : cvin_z), "to_string(zero, one) uses the given characters"); CANARY; }
 void h_ctor() { size_t n; __CPROVER_assume(n <= CAP); DynamicBitset d( n); __CPROVER_assert(d.size() == n && d.count() == 0, "DynamicBitset(n): n bits, all false");
   MK(s, m, b) DynamicBitset c( s.mData); __CPROVER_assert(c.size() == m && (c == s), "DynamicBitset(vector<bool>) copies the vector"); CANARY; }
+// conversions from std::vector< bool> / std::bitset< CV_BS_N>: the bitset takes over size and every bit
+void h_assign_vec() { MK(d, n, b) MK(s, m, c) d = s.mData; __CPROVER_assert(d.size() == m, "operator=(vector<bool>): size of the vector");
+  for (size_t i = 0; i < V; ++i) if (i < m) __CPROVER_assert(d.mData.mBits[i] == c[i], "operator=(vector<bool>): every bit of the vector"); CANARY; }
+#define MKBS(s, c) std::bitset< CV_BS_N> s; bool c[CV_BS_N]; for (size_t i = 0; i < CV_BS_N; ++i) { unsigned char cvin_bit; bool cv_b = (cvin_bit & 1) != 0; s.mB[i] = cv_b; c[i] = cv_b; }
+void h_ctor_bitset() { MKBS(s, c) DynamicBitset d( s); __CPROVER_assert(d.size() == CV_BS_N, "DynamicBitset(bitset<N>): N bits");
+  for (size_t i = 0; i < CV_BS_N; ++i) __CPROVER_assert(d.mData.mBits[i] == c[i], "DynamicBitset(bitset<N>): bit i is bit i of the bitset"); CANARY; }
+void h_assign_bitset() { MK(d, n, b) MKBS(s, c) d = s; __CPROVER_assert(d.size() == CV_BS_N, "operator=(bitset<N>): N bits");
+  for (size_t i = 0; i < CV_BS_N; ++i) __CPROVER_assert(d.mData.mBits[i] == c[i], "operator=(bitset<N>): bit i is bit i of the bitset"); CANARY; }
 void h_resize() { MK(d, n, b) size_t c; unsigned char cvin_v; bool v = (cvin_v & 1) != 0; __CPROVER_assume(c <= CAP); d.resize(c, v); __CPROVER_assert(d.size() == c, "resize: new size");
   for (size_t i = 0; i < V; ++i) if (i < c) __CPROVER_assert(d.mData.mBits[i] == (i < n ? b[i] : v), "resize keeps old bits, new bits get the init value"); CANARY; }
 }
 '''
 
 HARNESSES = ['test', 'queries', 'to_ulong', 'set_pos', 'reset_pos', 'flip_pos', 'index_const', 'index_ref', 'set_all', 'reset_all', 'flip_all',
-             'not', 'eq', 'and', 'or', 'xor', 'shl', 'shr', 'iter_begin', 'iter_next', 'riter_begin', 'riter_next', 'citer', 'to_string', 'ctor', 'resize']
+             'not', 'eq', 'and', 'or', 'xor', 'shl', 'shr', 'iter_begin', 'iter_next', 'riter_begin', 'riter_next', 'citer', 'to_string', 'ctor', 'resize', 'assign_vec', 'ctor_bitset', 'assign_bitset']
 
 
 def make_build(unit, cap, vcap, h, kf_expr='1'):
     def build(job, wd):
-        core.goto_cc(['-nostdinc', '-I', core.STUBS, '-I', unit.shadow.root, '-DCAP=%d' % cap, '-DCV_VEC_CAP=%d' % vcap, '-DCV_KF_EXPR=(%s)' % kf_expr,
+        core.goto_cc(['-nostdinc', '-I', core.STUBS, '-I', unit.shadow.root, '-DCAP=%d' % cap, '-DCV_VEC_CAP=%d' % vcap, '-DCV_BS_N=%d' % min(cap, 11), '-DCV_KF_EXPR=(%s)' % kf_expr,
                       unit.hpath, '--function', 'h_' + h, '-o', 'h.gb'], wd, 'C12 harness TU')
         return os.path.join(wd, 'h.gb')
     return build
@@ -255,7 +269,7 @@ def evidence_info(unit, tier):
                          'R-THROW: throw becomes "flag + return 0"', 'MiniSat'],
         'assumptions': ['bounded: bitset size <= CAP; growth factor (pos+1)*1.5 evaluated in double by CBMC as written',
                         'reset(): the property does not say whether the size is kept; both are accepted',
-                        'bitset<N> and vector<bool>&& members not under contract', 'termination not proved'],
+                        'std::bitset<N> members: textual instantiation with N = 11 (member templates; std::bitset by stand-in with unchecked operator[] as precondition); vector<bool>&& members not under contract (rvalue references)', 'termination not proved'],
         'not_under_contract': list(unit.shadow.dropped),
     }
 
@@ -283,6 +297,8 @@ def replay(unit, job, o, inputs, scratch):
     def bits(arr, nk):
         n = min(gi(nk), 80)
         return ''.join('1' if (gi('%s[%dl]' % (arr, i)) & 1) else '0' for i in range(n))
+    if 'bitset' in op:
+        inputs = dict(inputs, m=11)
     a = [op, 'bits=' + bits('b', 'n'), 'obits=' + bits('c', 'm'), 'pos=%d' % gi('pos'), 'k=%d' % gi('k'), 'v=%d' % (gi('cvin_v') & 1)]
     return native_replay(scratch, a)
 
